@@ -15,12 +15,14 @@ LEVEL_TEXT = ('Lean 4 theorems, for all shapes/targets/parities: pad (2-D and cu
               'shifts and negate under the half-turn index map; circle/rectangle/hexagon values lie in [0,1], are binary without '
               'antialiasing, translate under integer shifts and are half-turn (and, unrotated, mirror) symmetric — hexagons via the closure of their six '
               'edge normals under negation/mirroring, proved for the real angles n·pi/3 + phi; hex_ring(k) has 6k cells at cube '
-              'distance k; a k-ring aperture has 1+3k(k+1) cells minus the dropped numbers in range. PARTIAL: segment non-overlap, '
-              'border clearance and equal area are checked on the real code only (no theorem).')
+              'distance k, pairwise distinct; a k-ring aperture has 1+3k(k+1) distinct cells minus the dropped numbers in range; for seg_gap > 0 '
+              'two segments at distinct cells share no pixel (separating-axis argument over any ordered field, both orientations, with the '
+              'exact sin/cos tables of the edge normals proved over R). PARTIAL: border clearance and equal area are checked on the real '
+              'code only (no theorem); float rounding of the edge test is not modelled.')
 LEVEL_NOTE = ('Trusted: Lean kernel, py2lean subset semantics, NumPy slicing/reshape/any/where semantics as modelled in '
               'Model/Geometry.lean, float sqrt/sin/cos (model run at Float, tolerance 1e-9; binary masks compared except where the '
               'real-valued margin to the edge is < 1e-9), generator coverage. Known finding: hex_segments(seg_gap=0, antialias=False) '
-              'shares edge pixels between neighbours. Unproven: non-overlap for gap > 0, border clearance, equal area (oracle only).')
+              'shares edge pixels between neighbours. Unproven: border clearance, equal area (oracle only).')
 TECHNIQUE = 'Lean 4 proof (omega/induction/Finset sums) over translator-regenerated index kernel + hand model with differential correspondence'
 GEN = ['Util', 'Helper', 'Helper20', 'Hex']
 OPS = ['C20']
@@ -32,8 +34,7 @@ RULE = ('cases: pad of 2-D arrays (all source/target sizes 1..9, every grow/shri
         'same-shape/identity case')
 TRUSTED = ['NumPy slicing, reshape(...).sum, np.any/np.where, np.clip/np.minimum semantics as modelled by hand in Model/Geometry.lean',
            'libm sqrt/sin/cos agree with NumPy to 1e-9 (drawn shapes are compared with the model run at Float)']
-UNPROVEN = ['hex_segments: segments mutually non-overlapping for seg_gap > 0 (checked on the real code by the oracle only)',
-            'hex_segments: aperture clear of the array border (oracle only)',
+UNPROVEN = ['hex_segments: aperture clear of the array border (checked on the real code by the oracle only)',
             'hex_segments: equal segment area up to edge sampling (oracle only)']
 ASSUMPTIONS = ['shape parameters, shifts and radii are dyadic rationals of moderate size so that mesh coordinates are exact in float64',
                'non-overlap is judged on non-antialiased masks; seg_gap = 0 is the recorded known finding KF-C20-hex-gap0-shared-edge']
@@ -209,7 +210,10 @@ def impl(c):
             border = float(max(s[0, :].max(), s[-1, :].max(), s[:, 0].max(), s[:, -1].max()))
             flat = lentil.hex_segments(c['rings'], c['radius'], c['gap'], rotate=c['rotate'], antialias=False, pad=c['pad'],
                                        drop=tuple(c['drop']), flatten=True)
+            ring_cells = [h for k in range(1, c['rings'] + 1) for h in SG.hex_ring(k)]
+            rc = [[float(v) for v in SG.hex_to_rc(h, c['radius'] + c['gap'] / 2, c['rotate'])] for h in ring_cells]
             return {'count': int(m.shape[0]), 'shape': list(m.shape), 'max_overlap': float(s.max()), 'n_overlap': int((s > 1).sum()),
+                    'sum': _il(s), 'rc': rc, 'ring_cells': [[int(h.q), int(h.r), int(h.s)] for h in ring_cells],
                     'border': border, 'areas': [float(x.sum()) for x in m], 'centres': cents, 'binary': bool(np.all((m == 0) | (m == 1))),
                     'flatten_ok': bool(np.array_equal(flat, s))}
         # drawn shapes
@@ -229,7 +233,14 @@ def requests(c, io):
         r = dict(c); r['op'] = k; r.pop('kind'); return [r]
     if k == 'boundary': return [{'op': 'boundary', 'shape': c['shape'], 'data': c['data'], 'thr': c['thr'], 'pad': c['pad']}]
     if k == 'rebin': return [{'op': 'rebin3' if len(c['shape']) == 3 else 'rebin', 'shape': c['shape'], 'data': c['data'], 'f': c['f']}]
-    if k == 'segments': return [{'op': 'segments', 'rings': c['rings'], 'drop': c['drop']}]
+    if k == 'segments':
+        reqs = [{'op': 'segments', 'rings': c['rings'], 'drop': c['drop']}]
+        if 'ring_cells' in io:
+            reqs.append({'op': 'hex_to_rc', 'cells': io['ring_cells'], 'radius': vlib.fbits(c['radius'] + c['gap'] / 2), 'rotate': c['rotate']})
+            if c['rings'] * c['radius'] <= 10:        # full-mask model run only on the smaller apertures (cost)
+              reqs.append({'op': 'hex_segments', 'rings': c['rings'], 'radius': vlib.fbits(c['radius']), 'gap': vlib.fbits(c['gap']), 'rotate': c['rotate'],
+                         'pad': c['pad'], 'drop': [d for d in c['drop']], 'theta': vlib.fl(_hex_thetas(c['rotate']))})
+        return reqs
     if k == 'circle':
         return [{'op': 'circle', 'shape': c['shape'], 'radius': vlib.fbits(c['radius']), 'shift': vlib.fl(c['shift']), 'aa': c['aa']}]
     if k == 'rectangle':
@@ -306,6 +317,27 @@ def compare(c, io, mo):
             else: x = R * 1.5 * q; y = R * (math.sqrt(3) / 2 * q + math.sqrt(3) * r)
             if cen is None or abs(cen[0] - (-y)) > 0.75 or abs(cen[1] - x) > 0.75:
                 return f'segment for cell {cell}: drawn at {cen}, model centre {(-y, x)}'
+        if len(mo) > 1:
+            for cell, a, b in zip(io['ring_cells'], io['rc'], mo[1]['rc']):
+                b = vlib.unfl(b)
+                if max(abs(a[0] - b[0]), abs(a[1] - b[1])) > 1e-12 * (1 + abs(a[0]) + abs(a[1])): return f'hex_to_rc{tuple(cell)}: impl {a} model {b}'
+        if len(mo) > 2:
+            hs = mo[2]
+            if [hs['size'], hs['size']] != io['shape'][1:]: return f"hex_segments array size: impl {io['shape'][1:]} model {hs['size']}"
+            if hs['count'] != io['count']: return f"hex_segments count: impl {io['count']} model {hs['count']}"
+            n = hs['size']
+            got = np.array(io['sum']).reshape(n, n); want = np.array(hs['sum']).reshape(n, n)
+            if not np.array_equal(got, want):
+                # pixels whose centre lies within 1e-9 of an edge of some segment may fall either side
+                inner = c['radius'] * np.sqrt(3) / 2
+                y = _coords(n, 0.0)[:, None] * np.ones((1, n)); x = _coords(n, 0.0)[None, :] * np.ones((n, 1))
+                near = np.zeros((n, n), dtype=bool)
+                cents = [(0.0, 0.0)] * (0 in m['kept']) + [tuple(io['rc'][s - 1]) for s in m['kept'] if s > 0]
+                for (cr, cc) in cents:
+                    rho = np.max([(y - cr) * np.sin(t) + (x - cc) * np.cos(t) for t in _hex_thetas(c['rotate'])], axis=0)
+                    near |= np.abs(inner - rho) < 1e-9
+                bad = (got != want) & ~near
+                if bad.any(): return f'hex_segments: summed mask differs from the model at pixel {tuple(np.argwhere(bad)[0])} ({int(bad.sum())} pixels)'
         return None
     want = vlib.unfl(m['data'])
     _, q = _margin(c)
